@@ -40,8 +40,22 @@ def _import_model(kind):
         src = args[0]
         if it.run.branch(it.run.fresh_bool(f'{kind}_key_malformed'), f'{kind}.import_key fails'):
             raise PyExc(ValueError, (f'{kind} key format is not supported',), getattr(node, 'lineno', None), it.where())
-        return ('imported', kind, src)
+        return ImportedKey(kind, src)
     return f
+
+
+class ImportedKey(tuple):
+    """result of RSA.import_key / ECC.import_key: ('imported', kind, source bits); an ECC import is an EccKey"""
+
+    def __new__(cls, kind, src):
+        return super().__new__(cls, ('imported', kind, src))
+
+    def isinstance_(self, t):
+        if t is ECC.EccKey:
+            return self[1] == 'ecc'
+        if t is RSA.RsaKey:
+            return self[1] == 'rsa'
+        return t in (tuple, object)
 
 
 def _bytes_model(it, v):
